@@ -67,9 +67,17 @@ package getty
 //@   loop 1 invariant entry: one ==> (readedLength == 0 && content(in) == c0) || (readedLength == length && content(in) == rest && res[k] == v)
 //@   loop 1 decreases length - readedLength
 
+// every entry of the head map is written as be16(len k) k be16(len v) v - an empty key or value as
+// the bare zero length (w stands for an arbitrary key; lengths beyond 16 bits are outside the format)
 //@ func encodeHeapMap
 //@   prop C13
 //@   ensures length: result1 == len(result0)
+//@   let w := some(string, "w")
+//@   macro fits(kk) := len(kk) <= 65535 && len(data[kk]) <= 65535
+//@   macro entry(out, kk) := (kk != "" && data[kk] != "" ==> contains(out, be16(len(kk)) + kk + be16(len(data[kk])) + data[kk])) && (kk != "" && data[kk] == "" ==> contains(out, be16(len(kk)) + kk + "\x00\x00")) && (kk == "" && data[kk] != "" ==> contains(out, "\x00\x00" + be16(len(data[kk])) + data[kk])) && (kk == "" && data[kk] == "" ==> contains(out, "\x00\x00\x00\x00"))
+//@   loop 1 invariant buffer: buf != nil
+//@   loop 1 invariant entries-so-far: visited(w) && fits(w) ==> entry(content(buf), w)
+//@   at return: assert every-entry-is-written: haskey(data, w) && fits(w) ==> entry(string(result0), w)
 //@   nopanic
 
 //@ func (*RpcPackageHandler).Write
